@@ -320,6 +320,7 @@ def solve_query(qfn, files, tier, K=6, N=24, timeout_ms=120000, native_map=None,
 def replay_counterexample(qfn, files, inputs, obligation_label, kind, native_map=None, lits=None):
     """Run the query with concrete inputs against the REAL functions. -> (reproduced, detail)"""
     E = Env(files, "replay", model_inputs=inputs, native_map=native_map, lits=lits)
+    E.replay_labels = [obligation_label]
     try:
         qfn(E)
     except NativePanic as ex:
